@@ -202,7 +202,7 @@ def oracle_trace(ops, obs, pid='C03', kind=None):
                                       'op %d %r: _p_resolveConflict was called with %s, expected exactly one call with '
                                       '(state at the writer\'s serial %d, state committed at %d, state the writer wants) = %s'
                                       % (i, op, calls, serial, pred[0], exp)))
-                elif (conflict and olds and pred[1] is not None and kind != 'mapping' and resolvable_class(rec)
+                elif (conflict and olds and pred[1] is not None and kind not in ('mapping', 'mvccmapping') and resolvable_class(rec)
                       and first == 'err:Conflict'):
                     P.append((pid + ':resolver-not-invoked',
                               'op %d %r: ConflictError although the class offers _p_resolveConflict and both revisions '
